@@ -285,6 +285,8 @@ def design(pid, res, tier):
             raise wv.Infra("negative control %s did not fail" % cfg)
         if must:
             res.add("states", o["distinct"]); res.add("transitions", o["states"])
+    if pid == "C04":
+        wv.proofs(res, "ChunkingProofs")       # no load sequence ends in a final buffer without a block (any length, any chunk size)
     res.cov["design_configurations"] = len([r for r in runs if r[1]])
     res.cov["negative_controls_failed_as_expected"] = negs
 
